@@ -355,7 +355,11 @@ class EinsumDistributiveLawMapper(
                         ) -> Array:
         return _wrap_einsum_from_ctx(
             expr.replace_if_different(
-                array=_verify_is_array(self.rec(expr.array, None))
+                array=_verify_is_array(self.rec(expr.array, None)),
+                indices=tuple(
+                    _verify_is_array(self.rec(idx, None))
+                    if isinstance(idx, Array) else idx
+                    for idx in expr.indices)
             ),
             ctx,
         )
